@@ -1292,7 +1292,7 @@ def s_mem_take(I_, st, path, c, args, t, depth):
 
 SUMMARIES = [(re.compile(rx), h) for rx, h in [
     (r"^(std|alloc)::vec::Vec::<T>::new$|^(std|alloc)::vec::Vec::<T>::with_capacity$", s_vec_new),
-    (r"^(std|alloc)::vec::Vec::<T, A>::push$|^(std|alloc)::string::String::push_str$", s_vec_push),
+    (r"^(std|alloc)::vec::Vec::<T, A>::push$|^(std|alloc)::string::String::push_str$|^(std|alloc)::string::String::push$", s_vec_push),
     (r"^(std|alloc)::string::String::new$", s_vec_new),
     (r"^(std|alloc)::vec::Vec::<T, A>::pop$", s_vec_pop),
     (r"^(std|alloc)::vec::Vec::<T, A>::len$|slice::<impl \[T\]>::len$", s_len),
